@@ -575,6 +575,47 @@ theorem insertAt_item_spec (hI : Lawful I) (t : Tree T) (pos : Nat) (it : T) (p 
   rw [merge_seq' I hI, merge_seq' I hI, s1, s2]
   simp [single, seq]
 
+/-- a modification applied to an item that stands for one element (`it.modify(m)` before the item is
+    handed to `insert_at` / `from_item`) leaves an item that stands for the modified element — and
+    that CARRIES the modification as a pending one (`tag_pa`) -/
+theorem Singleton_tag (hI : Lawful I) (m : M) (it : T) (h : Singleton I it) : Singleton I (I.tag m it) :=
+  ⟨by rw [hI.tag_sz]; exact h.1, by rw [hI.tag_agg, h.2, hI.actG_inj, hI.tag_own]⟩
+
+/-- what a caller finds at the root of a treap whose `size()` is 1: the tree is that single node, it
+    represents `[own it]`, and the item stands for one element (pending modification or not) -/
+theorem onlyItem_some (hI : Lawful I) (t : Tree T) (h : WFt I t) (it : T) (ho : onlyItem? I t = some it) :
+    (∃ p, t = .node it p .nil .nil) ∧ seq I t = [I.own it] ∧ Singleton I it := by
+  cases t with
+  | nil => simp [onlyItem?] at ho
+  | node it' p l r =>
+    simp only [onlyItem?] at ho
+    split at ho
+    · rename_i h1
+      simp only [Option.some.injEq] at ho; subst ho
+      have hc : (Tree.node it' p l r).count = 1 := by rw [← h.2.2.1]; exact h1
+      simp only [Tree.count] at hc
+      have hl : l = .nil := by
+        cases l with
+        | nil => rfl
+        | node => simp [Tree.count] at hc; omega
+      have hr : r = .nil := by
+        cases r with
+        | nil => rfl
+        | node => simp [Tree.count] at hc; omega
+      subst hl; subst hr
+      exact ⟨⟨p, rfl⟩, by simp [seq], (WFt_single_iff I hI it' p).1 h⟩
+    · cases ho
+
+theorem onlyItem_none (t : Tree T) (h : WFt I t) (ho : onlyItem? I t = none) : (seq I t).length ≠ 1 := by
+  cases t with
+  | nil => simp [seq]
+  | node it' p l r =>
+    simp only [onlyItem?] at ho
+    split at ho
+    · cases ho
+    · rename_i h1
+      rw [seq_length, ← h.2.2.1]; exact h1
+
 /-- cloning the only element of a treap (`first()`, `last()` or `collect()[0]`) gives an item that
     stands for that element -/
 theorem pick_spec (hI : Lawful I) (w : Nat) (t : Tree T) (h : WFt I t) (hc : (seq I t).length ≤ 1) (p : Nat) :
